@@ -34,21 +34,26 @@ class Topo:
     """shards: list of lists of roles ('P' / 'R').  Address ids count up in configuration order
     (as pool.rs address_id does for a single pool); host = 127.0.0.(10+id)."""
 
-    def __init__(self, shards, lb="random", hc=True, default_role="any", pool_size=2, ban_time=60, ps_cache=0, stmt_to=STMT_TO):
+    def __init__(self, shards, lb="random", hc=True, default_role="any", pool_size=2, ban_time=60, ps_cache=0, stmt_to=STMT_TO, hosts=None):
         self.shards, self.lb, self.hc, self.default_role, self.pool_size, self.ban_time, self.ps_cache = shards, lb, hc, default_role, pool_size, ban_time, ps_cache
         self.stmt_to = stmt_to    # only the self-test changes it (the oracle keeps assuming STMT_TO)
+        self.hosts = hosts        # optional: host number per address id; servers may SHARE a host string (and differ in the port)
         self.addrs = []
         for s, roles in enumerate(shards):
             nr = 0
             for r in roles:
                 i = len(self.addrs)
                 name = ("p%d" % i) if r == "P" else ("r%d" % i)
-                self.addrs.append({"id": i, "shard": s, "role": r, "name": name, "host": "127.0.0.%d" % (10 + i), "hostn": 10 + i})
+                self.addrs.append({"id": i, "shard": s, "role": r, "name": name, "host": "127.0.0.%d" % (hosts[i] if hosts else 10 + i), "hostn": (hosts[i] if hosts else 10 + i)})
         self.by_name = {a["name"]: a for a in self.addrs}
-        self.by_host = {a["host"]: a for a in self.addrs}
+        self.by_host = {a["host"]: a for a in self.addrs}     # only meaningful when hosts are distinct; see of()
+
+    def of(self, b):
+        """the address a ban-list entry (from the `bans` event) stands for: by mock name (resolved from the port) when known"""
+        return self.by_name[b["name"]] if b.get("name") in self.by_name else self.by_host[b["host"]]
 
     def key(self):
-        return ("/".join("".join(s) for s in self.shards), self.lb, self.hc, self.default_role)
+        return ("/".join("".join(s) for s in self.shards), self.lb, self.hc, self.default_role, tuple(self.hosts or ()))
 
     def toml(self):
         general = {"connect_timeout": CONNECT_TO, "healthcheck_timeout": HC_TO, "healthcheck_delay": 0 if self.hc else 600000, "ban_time": self.ban_time}
@@ -80,7 +85,7 @@ def coq_reason(r):
 
 
 def coq_bl(topo, bans):
-    return "[" + "; ".join("(%s, (%s, %d))" % (topo.coq_addr(topo.by_host[b["host"]]), coq_reason(b["reason"]), b["ts"]) for b in bans) + "]"
+    return "[" + "; ".join("(%s, (%s, %d))" % (topo.coq_addr(topo.of(b)), coq_reason(b["reason"]), b["ts"]) for b in bans) + "]"
 
 
 def outcome_options(mode, busy, flags=(), fresh_only=False):
@@ -280,6 +285,12 @@ def modes_at(topo, hl, initial_modes):
 def windows(res):
     """label -> {'pre': bans event, 'post': bans event, 'events': [events strictly between]}"""
     ev = res.get("events", [])
+    pm = {port: name for name, port in (res.get("ports") or {}).items()}
+    for e in ev:
+        if e.get("ev") == "bans":
+            for p in e.get("pools", []):
+                for b in p["bans"]:
+                    b["name"] = pm.get(b["port"])
     out = {}
     pre = {}
     for i, e in enumerate(ev):
@@ -362,11 +373,11 @@ def gone_verdict(topo, s, ob, modes):
     m = modes[srv]
     if s.get("shape"):
         k = "KStmtTimeout" if s["fault"] == "hang" else "KRecv"
-        if s["shape"] == "copyout" and not any(topo.by_host[b["host"]]["name"] == srv for b in ob["post"] if b not in ob["pre"]):
+        if s["shape"] == "copyout" and not any(topo.of(b)["name"] == srv for b in ob["post"] if b not in ob["pre"]):
             # COPY TO STDOUT streams to the client in 8 KB pieces: with the client gone pgcat's write to the CLIENT may fail
             # before it has read up to the point where the server breaks; then the server never failed as far as pgcat knows
             k = None
-        if k == "KRecv" and s["shape"].startswith("copyin") and any(b["reason"] == "MessageSendFailed" and topo.by_host[b["host"]]["name"] == srv for b in ob["post"]):
+        if k == "KRecv" and s["shape"].startswith("copyin") and any(b["reason"] == "MessageSendFailed" and topo.of(b)["name"] == srv for b in ob["post"]):
             k = "KSend"          # the session died while CopyData was still being forwarded: a later write failed instead of the read
     elif m == "hang":
         k = "KStmtTimeout"
@@ -379,7 +390,7 @@ def gone_verdict(topo, s, ob, modes):
     ob["kind"], ob["arg"] = ("exec", k) if k else ("ok_err", None)
     if k and os.environ.get("VERIF_C07_SELFTEST_GONE_NOBAN"):
         # self-test: pretend the implementation skipped the ban because the client was gone
-        ob["post"] = [b for b in ob["post"] if topo.by_host[b["host"]]["name"] != srv or b in ob["pre"]]
+        ob["post"] = [b for b in ob["post"] if topo.of(b)["name"] != srv or b in ob["pre"]]
 
 
 def oob_verdict(topo, s, ob):
@@ -393,11 +404,11 @@ def oob_verdict(topo, s, ob):
     st = os.environ.get("VERIF_C07_SELFTEST_OOB")
     if st == "A" and ob["arg"] == "OobConnFail":
         # self-test: an implementation whose guard is inverted (socket failures of the exchange do not ban)
-        ob["post"] = [b for b in ob["post"] if topo.by_host[b["host"]]["name"] != ob["stmt_at"] or b in ob["pre"]]
+        ob["post"] = [b for b in ob["post"] if topo.of(b)["name"] != ob["stmt_at"] or b in ob["pre"]]
     if st == "B" and ob["arg"] == "OobServerError" and ob["stmt_at"]:
         # self-test: an implementation that bans the server whenever the exchange returns an error
         a = topo.by_name[ob["stmt_at"]]
-        ob["post"] = ob["post"] + [{"host": a["host"], "port": 0, "shard": a["shard"], "index": a["id"], "role": "Replica", "reason": "MessageSendFailed", "ts": ob["t1"] // 1000}]
+        ob["post"] = ob["post"] + [{"host": a["host"], "port": 0, "shard": a["shard"], "index": a["id"], "role": "Replica", "reason": "MessageSendFailed", "ts": ob["t1"] // 1000, "name": a["name"]}]
 
 
 def bl_match(model_bl, obs_bl, nows, t0s, t1s):
@@ -438,7 +449,7 @@ def parse_obs_list(v):
 
 def match_txn(topo, s, ob, modes, allowed, nows):
     """Is the observation one the model allows?  Returns (ok, reason-text)."""
-    post = [(topo.by_host[b["host"]]["id"], b["reason"], b["ts"]) for b in ob["post"]]
+    post = [(topo.of(b)["id"], b["reason"], b["ts"]) for b in ob["post"]]
     name_of = {a["id"]: a["name"] for a in topo.addrs}
     busy = set(s.get("busy", []))
     kind = ob["kind"]
@@ -482,8 +493,8 @@ def monitors(topo, s, ob, modes):
     """The property's sentences evaluated on one transaction window.  Returns list of failures."""
     bad = []
     cands = topo.candidates(s.get("role") or (None if topo.default_role == "any" else topo.default_role), s.get("shard"))
-    pre = {topo.by_host[b["host"]]["name"]: b for b in ob["pre"]}
-    post = {topo.by_host[b["host"]]["name"]: b for b in ob["post"]}
+    pre = {topo.of(b)["name"]: b for b in ob["pre"]}
+    post = {topo.of(b)["name"]: b for b in ob["post"]}
     for n in list(pre) + list(post):
         if topo.by_name[n]["role"] == "P":
             bad.append("primary %s is on the ban list" % n)
@@ -726,6 +737,21 @@ def scripted(quick):
                        dict({"op": "txn", "role": "replica", "c": c, "reuse": True, "keep": True, "msgs": bes, "oob": True, "oob_fault": f, "wait": SHAPE_WAIT}, **({"arm": ("P", f)} if f else {})),
                        {"op": "showbans"}, {"op": "txn", "role": "replica"}, {"op": "txn", "role": "replica"}, {"op": "unban", "b": "r1"}, {"op": "unban", "b": "r2"}]
             out.append(("oob-reprepare-%s-%d" % (lb, rep), t, hl, None))
+    # several servers on ONE host string (different ports), within a shard and across shards: BAN / UNBAN <host> apply to all of them
+    worlds = [("two-of-three", [["P", "R", "R", "R"]], [10, 20, 20, 21]), ("all-three", [["P", "R", "R", "R"]], [10, 20, 20, 20]),
+              ("with-primary", [["P", "R", "R"]], [20, 20, 20]), ("across-shards", [["P", "R", "R"], ["P", "R", "R"]], [10, 20, 20, 10, 20, 21])]
+    for wn, shards, hosts in worlds:
+        for lb in (("random",) if quick else ("random", "loc")):
+            t = Topo(shards, hc=True, lb=lb, hosts=hosts)
+            two = len(shards) > 1
+            tx = lambda sh=0: dict({"op": "txn", "role": "replica"}, **({"shard": sh} if two else {}))
+            last = t.addrs[-1]["name"]
+            hl = [{"op": "ban", "b": "r1", "secs": 30}, {"op": "showbans"}] + [tx(i % 2) for i in range(4)] + \
+                 [{"op": "unban", "b": "r2"}, {"op": "showbans"}] + [tx(i % 2) for i in range(3)] + \
+                 [{"op": "mode", "b": "r2", "mode": "close_mid_reply"}] + [tx(0) for i in range(4)] + [{"op": "ban", "b": "r1", "secs": 30}, {"op": "showbans"}] + [tx(i % 2) for i in range(2)] + \
+                 [{"op": "mode", "b": "r2", "mode": "normal"}, {"op": "unban", "b": "r1"}, {"op": "showbans"}] + [tx(i % 2) for i in range(3)] + \
+                 [{"op": "ban", "b": "p0", "secs": 30}, {"op": "showbans"}, {"op": "ban", "b": last, "secs": 30}, {"op": "unban", "b": "p0"}, {"op": "unban", "b": last}, {"op": "showbans"}] + [tx(i % 2) for i in range(2)]
+            out.append(("shared-host-%s-%s" % (wn, lb), t, hl, None))
     # two shards: bans and the all-banned reset are per shard
     t = Topo([["P", "R", "R"], ["P", "R", "R"]], hc=True)
     hl = [{"op": "mode", "b": "r1", "mode": "down"}, {"op": "mode", "b": "r2", "mode": "down"}] + \
@@ -832,7 +858,7 @@ def run_and_check(run, col, wire, cases, stats, label, workers=16):
                 elif s.get("fate"):
                     gone_verdict(topo, s, ob, m)
                 elif s.get("shape") and ob["kind"] == "closed_silent" and ob["stmt_at"] and \
-                        any(b["reason"] == "MessageSendFailed" and topo.by_host[b["host"]]["name"] == ob["stmt_at"] for b in ob["post"] if b not in ob["pre"]):
+                        any(b["reason"] == "MessageSendFailed" and topo.of(b)["name"] == ob["stmt_at"] for b in ob["post"] if b not in ob["pre"]):
                     ob["kind"], ob["arg"] = "exec", "KSend"   # client.rs:2052: a failed write to the server bans and ends the client task without a message
                 st = {"s": s, "ob": ob, "modes": m}
                 info["steps"].append(st)
@@ -879,7 +905,7 @@ def run_and_check(run, col, wire, cases, stats, label, workers=16):
         prev_post = None
         for si, st in enumerate(info["steps"]):
             s = st["s"]
-            replay = {"case": cid, "topology": {"shards": topo.shards, "lb": topo.lb, "healthcheck": topo.hc, "default_role": topo.default_role, "pool_size": topo.pool_size, "ban_time": topo.ban_time, "ps_cache": topo.ps_cache, "stmt_to": topo.stmt_to},
+            replay = {"case": cid, "topology": {"shards": topo.shards, "lb": topo.lb, "healthcheck": topo.hc, "default_role": topo.default_role, "pool_size": topo.pool_size, "ban_time": topo.ban_time, "ps_cache": topo.ps_cache, "stmt_to": topo.stmt_to, "hosts": topo.hosts},
                       "schedule": [{k: v for k, v in x.items() if k != "k"} for x in hl], "initial_modes": init, "step": s["k"]}
             pre = st["pre"] if st.get("admin") else st["ob"]["pre"]
             post = st["post"] if st.get("admin") else st["ob"]["post"]
@@ -913,7 +939,7 @@ def run_and_check(run, col, wire, cases, stats, label, workers=16):
                 if any(st["modes"][a["name"]] == "down" or "stale" in fl.get(a["name"], ()) for a in topo.addrs):
                     stats["unobservable"] += 1
                     continue
-            stats["distinct"].add((topo.key(), s.get("role"), s.get("shard"), tuple(sorted((k, v) for k, v in st["modes"].items() if k != "#flags")), tuple(sorted((b["host"], b["reason"].split("(")[0]) for b in ob["pre"])), ob["kind"]))
+            stats["distinct"].add((topo.key(), s.get("role"), s.get("shard"), tuple(sorted((k, v) for k, v in st["modes"].items() if k != "#flags")), tuple(sorted((b.get("name"), b["reason"].split("(")[0]) for b in ob["pre"])), ob["kind"]))
             if s.get("observe"):
                 stats["observed"][s["observe"]] = {"client": [ob["kind"], ob["arg"]], "bans_before": brief(ob["pre"]), "bans_after": brief(ob["post"]), "modes": {k: v for k, v in st["modes"].items() if k != "#flags"},
                                                    "ms": ob["t1"] - ob["t0"]}
@@ -945,7 +971,7 @@ def run_and_check(run, col, wire, cases, stats, label, workers=16):
                 stats["set_valued"] += 1
             okm, why = match_txn(topo, s, ob, st["modes"], allowed, st["nows"])
             stats["validated"] += 1
-            if ob["kind"] == "ok" and any(b["host"] not in [x["host"] for x in ob["post"]] for b in ob["pre"]):
+            if ob["kind"] == "ok" and any(b.get("name") not in [x.get("name") for x in ob["post"]] for b in ob["pre"]):
                 stats["unban_events"] += 1
             if len(ob["contacts"]) > 1 and ob["kind"] in ("ok", "ok_err"):
                 stats["silent_failovers"] += 1
@@ -962,7 +988,7 @@ def run_and_check(run, col, wire, cases, stats, label, workers=16):
 
 
 def brief(bans):
-    return [(b["host"].split(".")[-1], b["reason"]) for b in bans]
+    return [(b.get("name") or b["host"].split(".")[-1], b["reason"]) for b in bans]
 
 
 def slim(ob):
@@ -973,10 +999,28 @@ def check_admin(col, topo, st, mv, replay, stats):
     s = st["s"]
     rows = [f["cols"] for f in st["frames"] if f.get("t") == "D"]
     errs = [(f.get("fields") or {}).get("M", "") for f in st["frames"] if f.get("t") == "E"]
-    post = [(topo.by_host[b["host"]]["id"], b["reason"], b["ts"]) for b in st["post"]]
+    post = [(topo.of(b)["id"], b["reason"], b["ts"]) for b in st["post"]]
     t0s, t1s = st["t0"] // 1000, st["t1"] // 1000
     stats["admin_steps"] += 1
     if s["op"] in ("ban", "unban"):
+        # the command names a HOST: it applies to every server of the pool with that host string, whatever its port / shard
+        h = topo.by_name[s["b"]]["host"]
+        same = [a for a in topo.addrs if a["host"] == h]
+        after = {topo.of(b)["name"] for b in st["post"]}
+        if len(same) > 1:
+            stats["shared_host_admin_steps"] += 1
+        if s["op"] == "unban":
+            left = [a["name"] for a in same if a["name"] in after]
+            if left:
+                col.violation("counterexample", "%s step %d: UNBAN %s leaves %s banned (servers with that host: %s)" % (replay["case"], s["k"], h, left, [a["name"] for a in same]),
+                              dict(replay, observed={"pre": brief(st["pre"]), "post": brief(st["post"])}))
+                stats["violations"] += 1
+        elif s.get("secs", 0) > 0:
+            miss = [a["name"] for a in same if a["role"] == "R" and a["name"] not in after]
+            if miss:
+                col.violation("counterexample", "%s step %d: BAN %s %d does not ban %s (servers with that host: %s)" % (replay["case"], s["k"], h, s["secs"], miss, [a["name"] for a in same]),
+                              dict(replay, observed={"pre": brief(st["pre"]), "post": brief(st["post"])}))
+                stats["violations"] += 1
         stats["evaluations"] += 1
         stats["validated"] += 1
         ok = False
@@ -984,7 +1028,7 @@ def check_admin(col, topo, st, mv, replay, stats):
             bl = [(i, reason_str(r), ts) for (i, r, ts) in vlib.parse_coq(v)]
             if bl_match(bl, post, [t0s, t1s], t0s, t1s):
                 ok = True
-        stats["distinct"].add((topo.key(), s["op"], topo.by_name[s["b"]]["role"], s.get("secs"), tuple(sorted(b["host"] for b in st["pre"]))))
+        stats["distinct"].add((topo.key(), s["op"], topo.by_name[s["b"]]["role"], s.get("secs"), tuple(sorted(str(b.get("name")) for b in st["pre"]))))
         if not ok:
             col.violation("tie-broken", "%s step %d: admin %s %s: ban list %s -> %s, model says %s" % (replay["case"], s["k"], s["op"], s["b"], brief(st["pre"]), brief(st["post"]), [v for _, v in mv]),
                           dict(replay, correspondence="Ban/Model.v admin_ban/admin_unban vs admin.rs", observed={"pre": st["pre"], "post": st["post"], "rows": rows}), found_input=False)
@@ -1002,7 +1046,9 @@ def check_admin(col, topo, st, mv, replay, stats):
                 must.append((b["host"], b["reason"]))
             if d - (now0 - b["ts"]) > 0:
                 may.append((b["host"], b["reason"]))
-        if not (set(must) <= set(listed) <= set(may)) or st["pre"] != st["post"]:
+        from collections import Counter
+        cm, cl, cy = Counter(must), Counter(listed), Counter(may)
+        if any(cl[k] < v for k, v in cm.items()) or any(cy[k] < v for k, v in cl.items()) or st["pre"] != st["post"]:
             col.violation("tie-broken", "%s step %d: SHOW BANS lists %s, ban list is %s" % (replay["case"], s["k"], listed, st["pre"]), dict(replay, observed={"rows": rows, "bans": st["pre"]}), found_input=False)
             stats["violations"] += 1
         if len(listed) < len(st["pre"]):
@@ -1037,7 +1083,7 @@ def check_site(run, col, s, ob, replay, stats):
 
 def new_stats():
     return {"steps": 0, "evaluations": 0, "validated": 0, "set_valued": 0, "allowed_sizes": [], "txn_kinds": {}, "distinct": set(), "monitor_failures": 0, "violations": 0,
-            "harness_errors": 0, "unmodelled": {}, "samples": [], "admin_steps": 0, "unban_events": 0, "silent_failovers": 0, "sites": {}, "observed": {}, "client_fates": {}, "shapes": {}, "oob": {}, "unobservable": 0, "obs_primary_ban_row": 0, "obs_showbans_hides_due": 0}
+            "harness_errors": 0, "unmodelled": {}, "samples": [], "admin_steps": 0, "unban_events": 0, "silent_failovers": 0, "sites": {}, "observed": {}, "client_fates": {}, "shapes": {}, "oob": {}, "unobservable": 0, "shared_host_admin_steps": 0, "obs_primary_ban_row": 0, "obs_showbans_hides_due": 0}
 
 
 def check(run):
@@ -1073,7 +1119,10 @@ def check(run):
                 dr = "any"
             if dr == "primary" and "P" not in roles:
                 dr = "any"
-            topo = Topo([roles], lb=lb, hc=hc, default_role=dr)
+            hosts = None
+            if len(roles) >= 2 and rng.random() < 0.3:
+                hosts = [rng.choice([20, 20, 21]) for _ in roles]       # servers sharing a host string
+            topo = Topo([roles], lb=lb, hc=hc, default_role=dr, hosts=hosts)
             hl, init = random_schedule(rng, topo, rng.randint(6, 10))
             cases.append(("rnd-%s-%s-hc%d-%d" % ("".join(roles), lb, hc, rep), topo, hl, init))
     for rep in range(6 if quick else 80):
@@ -1141,6 +1190,7 @@ def check(run):
     run.cov["client_outcomes"] = stats["txn_kinds"]
     run.cov["client_fate_x_statement_outcome"] = stats["client_fates"]
     run.cov["unobservable_steps"] = stats["unobservable"]
+    run.cov["admin_steps_on_a_host_shared_by_several_servers"] = stats["shared_host_admin_steps"]
     run.cov["statement_shape_x_fault_x_client_fate"] = stats["shapes"]
     run.cov["out_of_band_reprepare"] = {k: {"n": len(v), "e.g.": v[0]} for k, v in stats["oob"].items()}
     # the RST fate is only meaningful if pgcat's write of the error to that client really fails
@@ -1170,7 +1220,7 @@ def check(run):
 
 
 def topo_name(info, b):
-    return "r%d" % (int(b["host"].split(".")[-1]) - 10) if b["role"] == "Replica" else "p%d" % (int(b["host"].split(".")[-1]) - 10)
+    return b.get("name") or ("r%d" % (int(b["host"].split(".")[-1]) - 10) if b["role"] == "Replica" else "p%d" % (int(b["host"].split(".")[-1]) - 10))
 
 
 def replay(run, path):
@@ -1182,7 +1232,7 @@ def replay(run, path):
     if not ok:
         print("harness does not build"); return 2
     tp = r["topology"]
-    topo = Topo(tp["shards"], lb=tp["lb"], hc=tp["healthcheck"], default_role=tp.get("default_role", "any"), pool_size=tp.get("pool_size", 2), ban_time=tp.get("ban_time", 60), ps_cache=tp.get("ps_cache", 0), stmt_to=tp.get("stmt_to", STMT_TO))
+    topo = Topo(tp["shards"], lb=tp["lb"], hc=tp["healthcheck"], default_role=tp.get("default_role", "any"), pool_size=tp.get("pool_size", 2), ban_time=tp.get("ban_time", 60), ps_cache=tp.get("ps_cache", 0), stmt_to=tp.get("stmt_to", STMT_TO), hosts=tp.get("hosts"))
     hl = [dict(x) for x in r["schedule"]]
     stats = new_stats()
     col = Col()
